@@ -2,15 +2,15 @@
 # tools/seed_verify.sh <worktree> <PID> <X>   -- verify a seeded change in its scratch worktree and keep it
 # pristine: demo passes; patched: full suite passes, demo fails. Copies to /verif/seeded/<PID>-<X>/.
 WT="$1"; PID="$2"; X="$3"
-S="$WT/_seeded/$X"
+XS=$(echo "$X" | sed "s/^W3//"); S="$WT/_seeded/$XS"
 cd "$WT" || exit 2
 git checkout -q -- . || exit 2
 [ -z "$(git status --short | grep -v '_seeded')" ] || { echo "worktree not pristine"; exit 2; }
-/venv/bin/python "_seeded/$X/demo.py" >/tmp/sv.$$.pre 2>&1; PRE=$?
-git apply "_seeded/$X/patch.diff" || { echo "patch does not apply"; exit 2; }
+/venv/bin/python "_seeded/$XS/demo.py" >/tmp/sv.$$.pre 2>&1; PRE=$?
+git apply "_seeded/$XS/patch.diff" || { echo "patch does not apply"; exit 2; }
 /venv/bin/python -m pytest -q -p no:cacheprovider -x >/tmp/sv.$$.t 2>&1; T=$?
 TS=$(tail -1 /tmp/sv.$$.t)
-/venv/bin/python "_seeded/$X/demo.py" >/tmp/sv.$$.post 2>&1; POST=$?
+/venv/bin/python "_seeded/$XS/demo.py" >/tmp/sv.$$.post 2>&1; POST=$?
 git checkout -q -- .
 echo "$PID-$X: demo pristine exit=$PRE  suite with patch exit=$T ($TS)  demo with patch exit=$POST"
 if [ $PRE -eq 0 ] && [ $T -eq 0 ] && [ $POST -ne 0 ]; then
